@@ -41,8 +41,23 @@ def run(job):
     r3 = u3[0]
     for items in (((Decimal(60), -1), (r3, 1)), ((Fraction(3, 2), 2), (r3, 1)),
                   ((2, 3), (u3[1], 1)), ((r3, 1), (Decimal(4), -2)),
-                  ((Decimal(10), -1), (u3[1], 1), (3, 2))):
+                  ((Decimal(10), -1), (u3[1], 1), (3, 2)),
+                  # two different units of the type in one term, exponents
+                  # other than +-1 (their scales must be merged correctly)
+                  ((Decimal(10), 1), (u3[1], 1), (r3, 2), (u3[1], -2)),
+                  ((u3[1], 3), (r3, -2), (Fraction(1, 2), 1)),
+                  ((r3, 2), (u3[1], 2), (r3, -3))):
         u3.append(c3.new_unit(W.uid("tq"), define_as=Term(items)))
+        # the scale as the *given* items define it (the stored definition is
+        # already the library's reduction of them)
+        given = Fraction(1)
+        for el, ex in items:
+            given *= (O.chain_scale(el) if hasattr(el, "_symbol") else O.F(el)) ** ex
+        if not job.shard:
+            job.case("wf/equiv-is-scale-of-given-term", repr(items),
+                     O.F(u3[-1]._equiv) == given and
+                     O.chain_scale(u3[-1]) == given,
+                     repr(u3[-1]._equiv), repr(given))
     u3.append(c3.new_unit(W.uid("tq"), define_as=Decimal(1000) * u3[2]))
     u3.append(c3.new_unit(W.uid("tq"), define_as=Fraction(1, 3) * u3[3]))
     groups = [list(c.units()) for c in classes] + [u1, u2, pu, u3]
